@@ -2938,6 +2938,113 @@ void narrow_ranges(char const *tn)
       if (b >= lo && e <= hi && b <= e && e - b <= 70000 && vf::mine(idx++))
         narrow_range_one<I>(tn, b, e);
 }
+// ---- single-pass input ranges supplied by the user.  (a) std::istream_iterator keeps the current value INSIDE the iterator
+// and hands out a reference to it; (b) an iterator over a shared queue consumes an element when it is incremented.  The
+// obvious loop  for (auto &&x : range) { body(x); }  dereferences, runs the body, and only then increments - and does not
+// increment after a break.
+struct istream_range
+{
+  std::istringstream *in;
+  std::istream_iterator<int> begin() const { return std::istream_iterator<int>(*in); }
+  std::istream_iterator<int> end() const { return std::istream_iterator<int>(); }
+};
+struct queue_iter
+{
+  using iterator_category = std::input_iterator_tag;
+  using value_type = int;
+  using difference_type = std::ptrdiff_t;
+  using pointer = int const *;
+  using reference = int const &;
+  std::deque<int> *q = nullptr; // nullptr: the end iterator
+  int const &operator*() const { return q->front(); }
+  queue_iter &operator++()
+  {
+    q->pop_front();
+    return *this;
+  }
+  void operator++(int) { q->pop_front(); }
+  bool at_end() const { return q == nullptr || q->empty(); }
+  friend bool operator==(queue_iter const &a, queue_iter const &b) { return a.at_end() == b.at_end(); }
+  friend bool operator!=(queue_iter const &a, queue_iter const &b) { return a.at_end() != b.at_end(); }
+};
+struct queue_range
+{
+  std::deque<int> *q;
+  queue_iter begin() const { return queue_iter{q}; }
+  queue_iter end() const { return queue_iter{}; }
+};
+void chk_single_pass(seq const &r)
+{
+  if (!start("single-pass-input-range", r))
+    return;
+  std::string text;
+  for (int v : r)
+    text += std::to_string(v) + " ";
+  auto const fresh = [&text](std::istringstream &is) {
+    is.clear();
+    is.str(text);
+    return istream_range{&is};
+  };
+  std::istringstream is;
+  {
+    lib();
+    seq visits;
+    fcppt::algorithm::loop(fresh(is), [&visits](int const &e) { visits.push_back(e); });
+    expect(visits, r, "loop", "istream_iterator", "visits");
+  }
+  {
+    lib();
+    std::uint64_t const got = fcppt::algorithm::fold(fresh(is), std::uint64_t{7}, [](int const &e, std::uint64_t const st) { return st * 5U + static_cast<std::uint64_t>(e) + 1U; });
+    std::uint64_t want = 7;
+    for (int v : r)
+      want = want * 5U + static_cast<std::uint64_t>(v) + 1U;
+    expect(got, want, "fold", "istream_iterator", "value");
+  }
+  {
+    lib();
+    auto const got = fcppt::algorithm::map<std::vector<int>>(fresh(is), [](int const &e) { return e * 10; });
+    seq want;
+    for (int v : r)
+      want.push_back(v * 10);
+    expect(seq(got.begin(), got.end()), want, "map", "istream_iterator", "value");
+  }
+  for (int probe = 0; probe < 3; ++probe)
+  {
+    lib();
+    bool const got = fcppt::algorithm::contains_if(fresh(is), [probe](int const &e) { return e == probe; });
+    expect(got, std::find(r.begin(), r.end(), probe) != r.end(), "contains_if", "istream_iterator", "value", par("probe", static_cast<unsigned>(probe)));
+  }
+  // a break at position k of a shared source: the elements from k on are still in the source
+  for (std::size_t k = 0; k <= r.size(); ++k)
+  {
+    std::deque<int> q(r.begin(), r.end());
+    seq visits;
+    std::size_t i = 0;
+    lib();
+    fcppt::algorithm::loop_break(queue_range{&q}, [&](int const &e) {
+      visits.push_back(e);
+      return i++ == k ? loop::break_ : loop::continue_;
+    });
+    seq const want_visits(r.begin(), r.begin() + static_cast<std::ptrdiff_t>(std::min(k + 1, r.size())));
+    seq const want_left(r.begin() + static_cast<std::ptrdiff_t>(std::min(k, r.size())), r.end());
+    expect(visits, want_visits, "loop_break", "shared-queue", "visits", par("break-at", static_cast<unsigned>(k)));
+    expect(seq(q.begin(), q.end()), want_left, "loop_break", "shared-queue", "left-in-the-source-after-the-break", par("break-at", static_cast<unsigned>(k)));
+    std::deque<int> q2(r.begin(), r.end());
+    std::size_t j = 0;
+    lib();
+    std::uint64_t const got = fcppt::algorithm::fold_break(queue_range{&q2}, std::uint64_t{3}, [&](int const &e, std::uint64_t const st) {
+      return std::make_pair(j++ == k ? loop::break_ : loop::continue_, st * 5U + static_cast<std::uint64_t>(e) + 1U);
+    });
+    std::uint64_t want = 3;
+    for (std::size_t m = 0; m < std::min(k + 1, r.size()); ++m)
+      want = want * 5U + static_cast<std::uint64_t>(r[m]) + 1U;
+    expect(got, want, "fold_break", "shared-queue", "value", par("break-at", static_cast<unsigned>(k)));
+    expect(seq(q2.begin(), q2.end()), want_left, "fold_break", "shared-queue", "left-in-the-source-after-the-break", par("break-at", static_cast<unsigned>(k)));
+  }
+  VF_COUNT("judged/single-pass-input-ranges");
+  finish();
+}
+
 void chk_narrow_int_ranges()
 {
   std::string const entry = "algorithm/narrow-int-ranges";
@@ -2966,6 +3073,7 @@ void vf_slice_13()
     chk_container_join_stateful(s);
   }, true);
   chk_narrow_int_ranges();
+  for_seqs("algorithm/single-pass-input-ranges", std::min(L(), 5U), [](seq const &s) { chk_single_pass(s); });
   run(kinds<k_vec, k_deque>{}, "container/at_optional", L(), LIFT(chk_at_optional));
   run_statics("container/at_optional", LIFT(chk_at_optional));
 }
@@ -3186,7 +3294,7 @@ void body()
         "get_or_insert/found", "get_or_insert/inserted", "get_or_insert/throwing-create", "set_difference/proper-non-empty",
         "set_ops/incomparable-operands", "set_ops/multiset-common-element-with-multiplicity", "array::from_range/size-matches", "array::from_range/source-longer",
         "array::from_range/source-shorter", "array::append/an-empty-operand", "tuple::concat/an-empty-operand",
-        "sequence_iteration/throwing-action", "judged/join-stateful-compare", "narrow-int-range/more-elements-than-the-type-holds"})
+        "sequence_iteration/throwing-action", "judged/join-stateful-compare", "narrow-int-range/more-elements-than-the-type-holds", "judged/single-pass-input-ranges"})
     vf::require_bucket(b);
   vf_slice_0();
   vf_slice_1();
